@@ -163,6 +163,17 @@ func (m *model) depth(x int) int {
 	return d
 }
 
+// pickEdges draws the edge relation row by row (one symbolic input per node,
+// 2^n values each) - the same space as one n*n-bit mask, without a 2^(n*n)-way
+// fan-out at a single decision.
+func pickEdges(n int) (out [4]int, mask int) {
+	for i := 0; i < n; i++ {
+		out[i] = vrt.Pick("row"+string(rune('0'+i)), 0, 1<<n-1)
+		mask |= out[i] << (i * n)
+	}
+	return
+}
+
 func edgesFromMask(mask, n int) [4]int {
 	var out [4]int
 	for i := 0; i < n; i++ {
@@ -210,10 +221,9 @@ func asCycleErr(err error) *graph.CircularDependencyError {
 func H_C05a_Deferred() {
 	n := vrt.Param("N", 3)
 	optionalDeps = vrt.Pick("optional", 0, 1) == 1
-	mask := vrt.Pick("mask", 0, 1<<(n*n)-1)
+	out, _ := pickEdges(n)
 	m := &model{n: n}
 	g := graph.NewDependencyGraph()
-	out := edgesFromMask(mask, n)
 	for i := 0; i < n; i++ {
 		m.add(i, out[i])
 		vrt.Assert(g.AddProviderDeferred(&prov{i, out[i], n}) == nil, "C05.add_deferred_error")
@@ -246,8 +256,7 @@ func H_C05a_Deferred() {
 // the graph looks like after a rejected add is C19's subject).
 func H_C05a_Immediate() {
 	n := vrt.Param("N", 3)
-	mask := vrt.Pick("mask", 0, 1<<(n*n)-1)
-	out := edgesFromMask(mask, n)
+	out, _ := pickEdges(n)
 	m := &model{n: n}
 	g := graph.NewDependencyGraph()
 	for i := 0; i < n; i++ {
@@ -293,11 +302,10 @@ func checkTopo(g *graph.DependencyGraph, m *model, prop string) {
 // H_C06a_Topo: all DAGs on N identities; both insertion paths.
 func H_C06a_Topo() {
 	n := vrt.Param("N", 3)
-	mask := vrt.Pick("mask", 0, 1<<(n*n)-1)
 	immediate := vrt.Bool("immediate")
 	optionalDeps = vrt.Pick("optional", 0, 1) == 1
 	dupDeps = vrt.Pick("dup", 0, 1) == 1
-	out := edgesFromMask(mask, n)
+	out, _ := pickEdges(n)
 	m := &model{n: n}
 	for i := 0; i < n; i++ {
 		m.add(i, out[i])
